@@ -19,8 +19,32 @@ RULE = ('abstract expression trees over the full operator set (24 binary spellin
         'Non-trivial: at least 2 operator nodes and the two renderings differ as text (precedence/associativity decided the '
         'parse), or a literal boundary case; distinct = distinct canonical trees.')
 
-CONTEXTS_QUICK = ['expr']
-CONTEXTS_THOROUGH = ['expr', 'query', 'assign', 'init']
+CONTEXTS_QUICK = ['expr', 'xml-label']
+CONTEXTS_THOROUGH = ['expr', 'query', 'assign', 'init', 'xml-label']
+
+
+def xml_label_model(tx):
+    """the expression as the assignment label of an edge of an XML model, its character data spelled in one of six ways (chosen by the text)"""
+    from xml.sax.saxutils import escape
+    import zlib
+    v = zlib.crc32(tx.encode()) % 6
+    cut = tx.find(' ', len(tx) // 3)
+    cut = len(tx) if cut < 0 else cut
+    a_, b_ = tx[:cut], tx[cut:]
+    ok = ']]>' not in tx
+    if v == 1 and ok:
+        data = '<![CDATA[' + tx + ']]>'
+    elif v == 2 and ok:
+        data = escape(a_) + '<![CDATA[' + b_ + ']]>'
+    elif v == 3 and ok:
+        data = '<![CDATA[' + a_ + ']]>' + escape(b_)
+    elif v == 4:
+        data = escape(a_) + '<!-- c -->' + escape(b_)
+    elif v == 5:
+        data = escape(tx).replace('<', '&#60;').replace('&lt;', '&#60;').replace('&gt;', '&#x3E;')
+    else:
+        data = escape(tx)
+    return G.ENV_XML.replace('<target ref="id1"/>', '<target ref="id1"/><label kind="assignment">' + data + '</label>', 1)
 
 
 def parse_in_context(orc, ctx, texts):
@@ -37,6 +61,8 @@ def parse_in_context(orc, ctx, texts):
         elif ctx == 'init':
             steps.append(dict(entry='part', part=1, builder='builder-only', newxta=1, base=G.ENV_XML, input='int zz = ' + tx + ';',
                               dump='doc'))
+        elif ctx == 'xml-label':
+            steps.append(dict(entry='xml-buffer', builder='builder-only', newxta=1, input=xml_label_model(tx), dump='doc'))
     r = orc.request(steps)
     if 'crash' in r:
         return None, r
@@ -54,6 +80,9 @@ def parse_in_context(orc, ctx, texts):
         elif ctx == 'init':
             vs = [v for v in st['doc']['globals']['variables'] if v['name'] == 'zz']
             out.append((st.get('n_errors', 0), vs[0]['init'] if vs else None, st.get('exc')))
+        elif ctx == 'xml-label':
+            es = st['doc']['templates'][0]['edges'] if st.get('doc') and st['doc']['templates'] else []
+            out.append((st.get('n_errors', 0), es[0].get('assign') if es else None, st.get('exc')))
     return out, r
 
 
